@@ -7,7 +7,7 @@ import scen_check, engine, families, scenario as S
 
 LEVEL = "proof"
 OWNERS = ("C07",)
-PROP_FILES = ["C06_ancestry"]
+PROP_FILES = ["C06_ancestry", "C07_defaults"]
 
 
 def settable_family(ctx, rng):
@@ -164,7 +164,17 @@ def default_edge_on_decorated_field(ctx):
 def run(ctx):
     edges_across_namespaces(ctx)
     default_edge_on_decorated_field(ctx)
-    scen_check.scenario_check(
+    before = len(ctx.violations)
+    items = scen_check.scenario_check(
         ctx, owners=OWNERS, n_valid=60, n_mut=260, extra=lambda c, r: settable_family(c, r) + families.guaranteed_family(r), prop_files=PROP_FILES,
         rule="conformant scenarios (half with thread groups, two renderings each), single-fault mutants owned by C07, the guaranteed-ancestry family (5 gate types x 4 x 4 branch shapes incl. diamonds through a shared nested checkpoint), and the settable family: owner action shape (plain / threaded without, with own, with the group's repeated checkpoint) x editor present x 7 operation forms, with an action appending to the owner's edge collection; distinct by abstract scenario",
         trusted=[])
+    # a broken obligation without an input (e.g. the tabulated typing of default values no longer matches the
+    # specification: model and implementation then agree with each other, wrongly): the conformant-by-construction
+    # scenarios the implementation does not accept are the failing inputs
+    new = ctx.violations[before:]
+    if new and all(v.get("no_input") for v in new):
+        bad = [it for it in (items or []) if it.kind == "valid" and it.res and it.res["outcome"] != "accept"]
+        for it in bad[:2]:
+            ctx.violation({"what": "a conformant-by-construction scenario is not accepted by the implementation while a proof obligation of C07 no longer checks (operations obeying the rules are never rejected)",
+                           "document": it.doc, "implementation": it.res, "scenario": it.scenario, "render": it.render})
